@@ -33,8 +33,8 @@ impl Prop for C07 {
                 what: "program x (no fault | Err at the k-th handler invocation, every k)".into(),
             }],
             rule: format!(
-                "every tree with <= 3 inner nodes over 16 node kinds (at the thorough tier also every tree with exactly 4 inner nodes over the 10 logging / assigning kinds; this run: max {} nodes) (built-in and registered logging infix, `&&`, `=`, `+=`, registered setter, built-in and logging prefix / postfix, conditional, context call, global call, list, map) in 4 leaf styles (context-function calls, bare-name context functions, mixed with true / false conditions), plus all two-statement chains; \
-                 for each program every handler invocation index k gets an injected Err. Oracle: call log (names and argument values), result and final bindings equal the reference evaluator's (left-to-right post-order, selected branch only, truncated at the fault). non-trivial = >= 1 handler invocation, distinct = distinct program",
+                "every tree with <= 3 inner nodes over 16 node kinds (at the thorough tier also every tree with exactly 4 inner nodes over the 10 logging / assigning kinds; this run: max {} nodes) (built-in and registered logging infix, `&&`, `=`, `+=`, registered setter, built-in and logging prefix / postfix, conditional, context call, global call, list, map) in 6 leaf styles (context-function calls, bare-name context functions, mixed with true / false conditions, identical sibling subtrees, literals only so that only operator handlers are observable), plus all two-statement chains; \
+                 each un-faulted program is also run through execute() twice and as one parsed AST evaluated twice (fresh equal contexts), all four must show the reference effects; for each program every handler invocation index k gets an injected Err. Oracle: call log (names and argument values), result and final bindings equal the reference evaluator's (left-to-right post-order, selected branch only, truncated at the fault). non-trivial = >= 1 handler invocation, distinct = distinct program",
                 max_nodes(tier)
             ),
             assumptions: vec!["every parent/child kind pair at every child position appears from 2 inner nodes on".into()],
@@ -60,6 +60,24 @@ impl Prop for C07 {
                 }
             }
             let (_, m, _) = compare_run(ast, &text, &world, Fault::None, 0, &key, &case, out);
+            // the other entry points (execute() twice, a stored AST evaluated twice) must show the
+            // same effects as the reference, every time
+            for (entry, r) in run_engine_entry_points(&text) {
+                out.evals += 1;
+                let same_result = match (&m.result, &r.result) {
+                    (Ok(w), crate::engine::Res::Ok(g)) => w == g,
+                    (Err(_), crate::engine::Res::Err(_)) => true,
+                    _ => false,
+                };
+                let ek = entry.split(',').next().unwrap_or(entry).replace(' ', "-");
+                if r.log != m.log {
+                    out.fail(format!("log:entry-point:{}:{}", ek, key), format!("{} via {}", case, entry), format!("{:?} through {}: expected log {:?}, engine log {:?}", text, entry, m.log, r.log));
+                } else if !same_result {
+                    out.fail(format!("result:entry-point:{}:{}", ek, key), format!("{} via {}", case, entry), format!("{:?} through {}: expected {:?} got {:?}", text, entry, m.result.as_ref().map(super::vals::show_value), r.result));
+                } else if r.vars.len() != m.vars.len() || r.vars.iter().zip(&m.vars).any(|(a, b)| a != b) {
+                    out.fail(format!("context:entry-point:{}:{}", ek, key), format!("{} via {}", case, entry), format!("{:?} through {}: bindings differ from the reference", text, entry));
+                }
+            }
             let n = m.log.len();
             if n >= 1 {
                 out.nontrivial.insert(hash64(&text));
